@@ -60,7 +60,10 @@ class VTime(EngineBase):
                 "eps": rng.choice([1e-6, 1e-9, 0.001, 0.02, 0.039]),
                 "status": rng.choice([0, 1 << 8, 255 << 8, 9, 15, 11, 64,
                                       rng.randrange(0, 256) << 8,
-                                      rng.randrange(1, 65)]),
+                                      rng.randrange(1, 65),
+                                      # killed by a signal, core dumped
+                                      0x80 | 6, 0x80 | 11, 0x80 | 3,
+                                      0x80 | rng.randrange(1, 65)]),
                 "reap_lag": rng.choice([0.0, 0.0, 0.0005, 0.03, 0.5, 2.0])}
         return spec
 
